@@ -48,7 +48,8 @@ from core import Eval
 PROPERTY = "C11"
 DRIVER = "drv_c11"
 PROPS = ["PartituraModel.Props.C11", "PartituraModel.Props.C11Rests", "PartituraModel.Props.C11Bar", "PartituraModel.Props.C11Rows",
-         "PartituraModel.Props.C11Tuplets", "PartituraModel.Props.C11Sound"]
+         "PartituraModel.Props.C11Tuplets", "PartituraModel.Props.C11Sound", "PartituraModel.Props.C11Grace",
+         "PartituraModel.Props.C11Compose", "PartituraModel.Props.C11Conv", "PartituraModel.Props.C11Decide"]
 TRUSTED = [
     "Part.remove takes an object off the timeline and touches no reference other objects hold to it; iter_all(cls, start=t, "
     "end=t+1) yields the objects starting at t in insertion order (sanitize_part's search for a main note)",
@@ -66,6 +67,8 @@ TRUSTED = [
     "binary64 evaluation of st + symbolic_to_numeric_duration(sd, divs) for the members of a composite rest is exact "
     "(checked for every composite answer of the estimator, div 1..960; the model uses exact rationals and the harness "
     "compares the exact binary value of every time)",
+    "binary64 evaluation of float(divs) * LABEL_DURS[type] * DOT_MULTIPLIERS[dots] * (normal / actual) in "
+    "symbolic_to_numeric_duration (duration_from_symbolic): the model is exact, the stream dfsl compares within 1e-12 relative",
 ]
 PARTIAL = [
     "estimate_back / estimate_total are proved for integer durations (all div >= 1, all dur); for non-integer float "
@@ -73,14 +76,22 @@ PARTIAL = [
     "measures_tile / numbers_consecutive / measure_lengths hold for every bar-end map that is Integral; for add_measures "
     "itself (C02's beat maps) they are proved as *_real under BarsIntegral: positive divisions and signature numbers, and "
     "every stretch of one time signature free of quarter-duration changes with a whole number L = 4*quarter_duration/"
-    "beat_type of divisions per beat (decidable from the part; the evidence counts the generated parts that satisfy it). "
-    "Parts outside it (a beat that is not a whole number of divisions, a quarter-duration change inside a stretch) are only "
-    "compared; TsOK / ExistingOK (the Reading's preconditions) are hypotheses throughout",
+    "beat_type of divisions per beat. TsOK / ExistingOK (the Reading's preconditions) and BarsIntegral are decided together by "
+    "the executable readingOKB (Model/MeasuresDec.lean; readingOKB p = true implies all three: measures_checked, "
+    "measure_lengths_checked, pipeline_checked), which the driver evaluates on every generated part (stream rok, compared "
+    "with a Python port; the evidence counts the parts that pass); reading_ok_exact: the test holds exactly when the three "
+    "conditions do. Parts "
+    "outside it (a beat that is not a whole number of divisions, a quarter-duration change inside a stretch, overlapping or "
+    "straddling existing measures) are only compared",
     "tie_notes_note_array_same / normalise_note_array_same (the LIST `sounding` of the model, which the driver prints and the "
     "harness compares with duration_tied / midi_pitch of the real notes, is identical before and after tie_notes, "
     "find_tuplets and sanitize_part) hold for note lists with distinct keys whose ties point at notes with a back link "
     "and whose chains end (Walkable: duration_tied terminates; Python does not return on a cyclic chain) - validity of the "
-    "input, not side conditions on the code; the pitch column is the spelling token, evaluated to the MIDI number by "
+    "input, not side conditions on the code; Walkable follows from conditions on single notes and links (chains_end_from_local: "
+    "distinct keys, back links, every tie joins a note of positive length to one that starts where it ends) and "
+    "pipeline_normalises(_local) composes add_measures, tie_notes, find_tuplets and sanitize_part (note array kept, every "
+    "note of positive length inside the timeline within ONE measure - the measure order tie_notes_within_measures assumed is "
+    "proved from add_measures -, ties adjacent) under TsOK / ExistingOK / BarsIntegral; the pitch column is the spelling token, evaluated to the MIDI number by "
     "midiOfToken (compared on every generated spelling, alter None/0 and enharmonic respellings included)",
     "tie_notes stage 2 (find_tie_split + split_note) and find_tuplets are unreachable in the current code because "
     "estimate_symbolic_duration returns {} instead of None (theorems stage2_dead, tuplet_candidates_empty, tuplets_dead). "
@@ -94,8 +105,9 @@ PARTIAL = [
     "fill_rests (Model/Rests.lean, both modes): rests_sound_same(_global) and rest_symdur hold for all inputs of the model; "
     "rests_fill_gaps / rests_fill_staves are per measure, for integer times and quarter durations <= 2^40, and speak about "
     "objects that START in the measure, grouped by voice (as the code does; not by voice and staff); for the whole part "
-    "(fill_rests_decomposes, rests_fill_gaps_all) the measures must be pairwise disjoint and non-empty - what add_measures "
-    "produces (measures_tile) - since overlapping measures do see each other's rests; global mode fills only "
+    "(fill_rests_decomposes, rests_fill_gaps_all) the measures must be pairwise disjoint and non-empty - proved for the "
+    "measures add_measures returns (add_measures_then_fill_rests, under TsOK / ExistingOK / BarsIntegral), assumed for "
+    "measures entered by hand since overlapping measures do see each other's rests; global mode fills only "
     "before the first / after the last object of a (voice, staff) by design, so there is no gap theorem for it; the later "
     "members of a composite rest are evaluated with the divisions at the start of the stretch, which are the divisions in "
     "force at their own start only if no quarter-duration change lies inside the stretch",
@@ -103,9 +115,25 @@ PARTIAL = [
     "incomplete tuplets / slurs removed, tie check) and compared on generated INCOMPLETE structures; proved: identity on "
     "complete structures (sanitize_complete_noop), no plain note ever removed / moved / altered (sanitize_keeps_notes), the "
     "tie check cannot see spellings, voices, staves or ids (sanitize_reads_sound_not_spelling), it is discharged for the "
-    "output of tie_notes (tie_then_sanitize, from tie_notes_links_kept). NOT proved: that a grace note which has a main "
-    "note is never removed and that every grace note kept has one (oracle clauses complete-removed / incomplete-kept and "
-    "the correspondence only); a removed grace note leaves the note array by the function's documented purpose",
+    "output of tie_notes (tie_then_sanitize, from tie_notes_links_kept); for the grace-note loop as written, on every "
+    "part (sequences, dangling / cyclic grace links, equal keys): a grace note that has a main note is never removed and "
+    "whatever is removed had none when the call began (sanitize_complete_grace_kept, sanitize_removes_only_incomplete), "
+    "every grace note still in the part has a main note afterwards (sanitize_kept_grace_has_main: with one key per grace "
+    "note; sanitize_kept_grace_has_main_lk: by lookup, without that condition), no grace note is moved, "
+    "revoiced or reordered and an adopting note starts where a grace note starts and has its voice (sanitize_grace_links). "
+    "WHICH of several candidate notes adopts is proved per turn of the loop (grace_adopter_is_last: the last plain note in "
+    "iteration order of the grace note's voice that starts with it, put on the last grace note of its sequence), not as a "
+    "closed form of the whole loop; a grace note listed for removal may be completed by a later turn of the loop and is "
+    "removed all the same (example exLate), so 'removed => no main note afterwards' is not claimed; the "
+    "links are followed with fuel = number of grace notes + 1 (Python does not return on a cyclic sequence); a removed "
+    "grace note leaves the note array by the function's documented purpose",
+    "format_symbolic_duration / GenericNote.duration_from_symbolic (Model/SymConv.lean) are compared on stored values of "
+    "every shape (None, {}, plain, dotted, tuplet, half a tuplet, unknown type, too many dots, tuples); proved: "
+    "duration_from_symbolic on an estimated value is None or exactly the numeric duration and never raises "
+    "(duration_from_symbolic_back / _note / _after_tie, integer durations); that the formatted string names the value "
+    "(type, dots, tuplet or not, ratio) is proved for all type names without '.' and '_' - which every name of the "
+    "regenerated LABEL_DURS is -, all dot counts and all ratios (format_names_value, label_names_plain; the example "
+    "'quarter.' shows the condition is needed); a dict holding a tuplet key with value None is not generated",
     "Gen/C11Consts.lean: tupletFirstNormal is the observed first guess (a search starting at 1 instead of 2 is not "
     "observable); tieNotesMaxSplits and addMeasuresSnap are read from the syntax tree (literal or constant expression, "
     "possibly through a local) - another way of writing them stops consts_extracted from building",
@@ -123,13 +151,17 @@ RULE = ("(a) estimator: every div 1..960 x every integer dur 1..8 div (thorough)
         "differently (alter None / 0, enharmonic respelling, other voice, other staff, id None at the head or inside; half of "
         "all entered ties); (f) sanitize_part on parts with incomplete structures: grace notes and grace sequences without "
         "main note (with / without a note of their voice starting with them), tuplets and slurs lacking a note, ties between "
-        "non-adjacent notes (gaps, overlaps, backwards), tie_tolerance default / 0 / 1 / 2 / 5. distinct = distinct "
+        "non-adjacent notes (gaps, overlaps, backwards), tie_tolerance default / 0 / 1 / 2 / 5; (g) format_symbolic_duration "
+        "and Note.duration_from_symbolic on 8-30 notes per case storing None / {} / () / one value (every label of LABEL_DURS and "
+        "unknown ones, 0..5 dots, whole, half and degenerate tuplet ratios) / a tuple of values, divisions 1..960. distinct = distinct "
         "request text; non-trivial = estimator returned a value / a note was split / a measure was added / a tuplet was found")
 LEVEL_TEXT = ("Lean 4 theorems (all durations and divisions, all measure layouts and split lists, whole regenerated "
               "tables by kernel decision) about executable models of the estimator, the split search, add_measures (also over "
               "C02's concrete beat maps), tie_notes, find_tuplets, fill_rests and sanitize_part, up to the end-to-end statement "
               "that the executable note array of the model is the same list before and after tie_notes / find_tuplets / "
-              "sanitize_part (normalise_note_array_same); the literal constants of the source are regenerated into the model "
+              "sanitize_part (normalise_note_array_same) and its composition with add_measures (pipeline_normalises: note array kept, "
+              "every note within one measure, ties adjacent), the grace-note loop of sanitize_part (kept <=> has a main note) and "
+              "duration_from_symbolic; the literal constants of the source are regenerated into the model "
               "on every run; the models are tied to the code by an exhaustive differential sweep of the "
               "estimator over div 1..960 and a differential run over generated parts (note arrays compared row by row).")
 
@@ -240,6 +272,8 @@ def cases(rng, tier):
         yield gen_tuplet_part(rng)
     for i in range(2000 if thorough else 110):
         yield gen_sanit(rng)
+    for i in range(400 if thorough else 40):
+        yield gen_conv(rng)
     # (a) estimator
     if thorough:
         for div in range(1, 961):
@@ -255,6 +289,50 @@ def cases(rng, tier):
         div = rng.choice([rng.randint(1, 960), rng.randint(961, 100000), rng.choice([1024, 4096, 10080, 65536])])
         dur = rng.choice([rng.randint(0, 8 * div), rng.randint(0, 40 * div)])
         yield {"k": "estl", "div": div, "com": rng.random() < 0.5, "durs": [dur]}
+
+
+CONV_ODD_TYPES = ["", "x", "Quarter", "quarter.", "1024th", "maxima"]
+
+
+def gen_conv(rng):
+    """(g) format_symbolic_duration / GenericNote.duration_from_symbolic on stored values of every shape"""
+    G = _tables()
+    labels = sorted(G.LABEL_DURS)
+    ndots = len(G.DOT_MULTIPLIERS)
+
+    def one_sd():
+        sd = {"type": rng.choice(labels) if rng.random() < 0.85 else rng.choice(CONV_ODD_TYPES)}
+        r = rng.random()
+        if r < 0.6:
+            sd["dots"] = rng.randrange(ndots)
+        elif r < 0.7:
+            sd["dots"] = ndots + rng.randrange(2)   # beyond DOT_MULTIPLIERS: raises
+        r = rng.random()
+        if r < 0.35:
+            sd["actual_notes"], sd["normal_notes"] = rng.choice([(3, 2), (5, 4), (7, 4), (6, 4), (2, 3), (13, 12), (0, 2), (3, 0), (1, 1)])
+        elif r < 0.42:
+            sd["actual_notes"] = rng.choice([3, 5])
+        elif r < 0.49:
+            sd["normal_notes"] = rng.choice([2, 4])
+        return sd
+
+    q = rng.choice(DIVS + [rng.randint(1, 960)])
+    items = []
+    for _ in range(rng.randint(8, 30)):
+        r = rng.random()
+        dur = rng.choice([rng.randint(1, 8 * q), q, 2 * q, max(1, q // 2), 3 * q])
+        if r < 0.25:
+            v = None      # nothing stored: the property estimates from the numeric duration
+        elif r < 0.32:
+            v = {}
+        elif r < 0.85:
+            v = one_sd()
+        elif r < 0.9:
+            v = []        # an empty tuple
+        else:
+            v = [one_sd() for _ in range(rng.randint(1, 3))]
+        items.append({"dur": dur, "v": v})
+    return {"k": "conv", "q": q, "items": items}
 
 
 STEP_PC = {"C": 0, "D": 2, "E": 4, "F": 5, "G": 7, "A": 9, "B": 11}
@@ -784,6 +862,65 @@ def bars_integral(d, first, last):
     return True
 
 
+def reading_ok(part):
+    """Python port of `readingOKB` (lean/PartituraModel/Model/MeasuresDec.lean): the side conditions TsOK, ExistingOK and
+    BarsIntegral of the measure theorems computed from the real part, as the text the driver answers to `rok`.  It is NOT
+    an oracle gate: it is compared with the model on every generated part and counted in the evidence."""
+    import partitura.score as S
+
+    first, last, npoints = int(part.first_point.t), int(part.last_point.t), len(part._points)
+    qd = [(int(t), int(q)) for t, q in zip(part._quarter_times, part._quarter_durations)]
+    ts = [(int(x.start.t), int(x.beats), int(x.beat_type)) for x in part.iter_all(S.TimeSignature)]
+    ms = [(int(m.start.t), int(m.end.t)) for m in part.iter_all(S.Measure)]
+    # stretches (the prologue of add_measures)
+    tsl = [(t, b) for t, b, _ in ts]
+    if tsl and tsl[0][0] > first:
+        tsl = [(first, 4)] + tsl
+    if tsl and tsl[-1][0] >= last:
+        tsl = tsl[:-1]
+    starts = [t for t, _ in tsl]
+    tail = starts[1:]
+    ends = tail + [last] if (not tail or tail[-1] < last) else tail
+    if len(starts) != len(ends):
+        return "none"
+    st = [(max(a, 0), max(e, 0), b) for (a, b), e in zip(tsl, ends)]
+    tst = [t for t, _, _ in ts]
+    ts_ok = all(a <= b for i, a in enumerate(tst) for b in tst[i + 1:]) and all(first <= t <= last for t in tst) \
+        and first < last and bool(ts)
+
+    def td(n, l):
+        for a, e in l:
+            if not (n <= a and a < e):
+                return False
+            n = e
+        return True
+
+    ex_ok = td(first, ms) and all(e <= last for _, e in ms) and not any(a < x[1] < e for a, e in ms for x in st)
+    wf = npoints >= 2 and first < last and all(q > 0 for _, q in qd) and all(b > 0 and bt > 0 for _, b, bt in ts)
+    times = sorted(set([first, last] + [t for t, _ in qd] + tst))
+    kps, cd, cb = [], Fraction(1), Fraction(1)
+    for t in times:
+        for tt, q in qd:
+            if tt == t:
+                cd = Fraction(q)
+        for tt, _, bt in ts:
+            if tt == t:
+                cb = Fraction(bt, 4)
+        kps.append((t, cd, cb))
+
+    def beat_l(k):
+        if k[2] == 0:
+            return False
+        r = k[1] / k[2]
+        return r.denominator == 1 and r > 0
+
+    def stretch_beat(x):
+        return any(k[0] <= x[0] and x[1] <= k2[0] and beat_l(k) for k, k2 in zip(kps, kps[1:]))
+
+    bars = wf and all(x[2] > 0 and (not x[0] < x[1] or stretch_beat(x)) for x in st)
+    return W.f_tuple(*[W.f_bool(x) for x in (ts_ok and ex_ok and bars, ts_ok, ex_ok, bars)])
+
+
 def check_add_measures(d, before, after, first, last, out):
     """before/after: [(s, e, number)] in time order"""
     if not d["ts"] or first == last:
@@ -944,6 +1081,12 @@ def eval_part(d, ev):
 
     # ---- add_measures
     before = [(m.start.t, m.end.t, m.number) for m in part.iter_all(S.Measure)]
+    # the executable side condition of the measure theorems (Props/C11Decide.lean), decided by the model for this part
+    ev.requests.append("rok " + header(part))
+    rok, rexc = call(reading_ok, part)
+    ev.impl.append("err" if rexc is not None else rok)
+    info["reading_ok"] = "err" if rexc is not None else rok
+    ev.info = info
     ev.requests.append("addm " + header(part))
     _, exc = call(S.add_measures, part)
     after = [(m.start.t, m.end.t, m.number) for m in part.iter_all(S.Measure)]
@@ -1378,6 +1521,71 @@ def eval_sanit(d, ev):
     return len(graces) - len(kept_g) + len(tups) + len(sls) + len(chains) > 0
 
 
+def sym_value_req(v):
+    """a stored symbolic duration of any shape: N = None, E = {}, S = one value, C = a tuple of tied values"""
+    if isinstance(v, (list, tuple)):
+        return "C " + W.lst(lambda x: sym_field_req(x)[2:], list(v))
+    return sym_field_req(v)
+
+
+def conv_shape(v):
+    G = _tables()
+    if v is None:
+        return "none(estimated)"
+    if isinstance(v, (list, tuple)):
+        return "tuple" if v else "empty-tuple"
+    if not v:
+        return "empty-dict"
+    if v.get("type") not in G.LABEL_DURS:
+        return "unknown-type"
+    if v.get("dots", 0) >= len(G.DOT_MULTIPLIERS):
+        return "too-many-dots"
+    if "actual_notes" in v and "normal_notes" in v:
+        return "tuplet"
+    if "actual_notes" in v or "normal_notes" in v:
+        return "half-tuplet"
+    return "dotted" if v.get("dots") else "plain"
+
+
+def eval_conv(d, ev):
+    """format_symbolic_duration and GenericNote.duration_from_symbolic against Model/SymConv.lean; the oracle judges the
+    round trip of the property: a note without stored value reports no notated value or exactly its numeric duration"""
+    import partitura.score as S
+    import partitura.utils.music as M
+    from collections import Counter
+
+    q = d["q"]
+    part = S.Part("P0", quarter_duration=q)
+    fm, df = [], []
+    shapes = Counter()
+    bad = 0
+    for i, it in enumerate(d["items"]):
+        v = tuple(it["v"]) if isinstance(it["v"], list) else it["v"]
+        shapes[conv_shape(v)] += 1
+        r, exc = call(M.format_symbolic_duration, v)
+        fm.append("err" if exc is not None else str(r))
+        n = S.Note("C", 4, id="n%d" % i, voice=1, symbolic_duration=v)
+        part.add(n, 0, it["dur"])
+        r, exc = call(lambda: n.duration_from_symbolic)
+        if exc is not None:
+            df.append("err")
+        elif r is None:
+            df.append(None)
+        else:
+            df.append(float(r))
+        if v is None and bad < 3 and 1 <= q <= 960:
+            if exc is not None or (r is not None and abs(float(r) - it["dur"]) > 1e-9 * max(1, it["dur"])):
+                bad += 1
+                ev.oracle.append("convert/back: a note of %d divs at %d per quarter has symbolic duration %r and "
+                                 "duration_from_symbolic %r" % (it["dur"], q, n.symbolic_duration, exc or r))
+    ev.requests.append("fmtl " + W.lst(sym_value_req, [it["v"] for it in d["items"]]))
+    ev.impl.append(W.f_list(lambda x: x, fm))
+    ev.requests.append("dfsl %d %s" % (q, W.lst(lambda it: "%d %s" % (it["dur"], sym_value_req(it["v"])), d["items"])))
+    ev.impl.append(("@approx", df, 1e-12))
+    ev.info = {"conv": dict(shapes), "conv_results": dict(Counter("err" if x == "err" else ("None" if x is None else "value") for x in df))}
+    return any(isinstance(x, float) for x in df)
+
+
 def sounding_cls(part, cls):
     import partitura.score as S
 
@@ -1425,6 +1633,8 @@ def evaluate(d):
         nontrivial = eval_tuplets(d, ev)
     elif k == "sanit":
         nontrivial = eval_sanit(d, ev)
+    elif k == "conv":
+        nontrivial = eval_conv(d, ev)
     ev.key = ("|".join(ev.requests)[:2000] or repr(d)) if nontrivial else None
     return ev
 
@@ -1440,6 +1650,9 @@ def shrink(d):
     if d.get("k") == "estr":
         for x in range(d["lo"], d["hi"]):
             yield {"k": "estl", "div": d["div"], "com": False, "durs": [x]}
+    if d.get("k") == "conv" and len(d["items"]) > 1:
+        for it in d["items"]:
+            yield dict(d, items=[it])
     if d.get("k") == "sanit":
         for f in ("xties", "xgraces", "tuplets", "xslurs"):
             for i in range(len(d.get(f, []))):
@@ -1480,6 +1693,7 @@ def distribution(descs, results):
         "parts_by_divs": dict(Counter(d["divs"] for d, _ in parts)),
         "measures_added": sum((r.get("info") or {}).get("added", 0) for _, r in parts),
         "parts_with_BarsIntegral": dict(Counter(str((r.get("info") or {}).get("bars_integral")) for _, r in parts)),
+        "parts_by_readingOKB(all,TsOK,ExistingOK,BarsIntegral)": dict(Counter(str((r.get("info") or {}).get("reading_ok")) for _, r in parts)),
         "notes_created_by_tie_notes": sum((r.get("info") or {}).get("split", 0) for _, r in parts),
         "fill_rests_raised": dict(Counter(str((r.get("info") or {}).get("fill_rests_raised")) for _, r in parts)),
         "rests_added": sum((r.get("info") or {}).get("rests_added", 0) for _, r in parts),
@@ -1492,4 +1706,6 @@ def distribution(descs, results):
         "tie_links_by_representation_variant": dict(Counter(t for _, r in parts for t in (r.get("info") or {}).get("tie_variants", []))),
         "sanitize_shapes": dict(sum((Counter((r.get("info") or {}).get("sanit") or {}) for r in results), Counter())),
         "sanitize_by_tolerance": dict(Counter(str(d.get("tol")) for d in descs if d["k"] == "sanit")),
+        "conversion_values_by_shape": dict(sum((Counter((r.get("info") or {}).get("conv") or {}) for r in results), Counter())),
+        "duration_from_symbolic_results": dict(sum((Counter((r.get("info") or {}).get("conv_results") or {}) for r in results), Counter())),
     }
